@@ -5,6 +5,7 @@
 set -u
 P=$1; K=$2; W=/tmp/mut-$P; O=$W/_out
 export CARGO_NET_OFFLINE=true
+export CARGO_BUILD_JOBS=${CARGO_BUILD_JOBS:-6}
 cd $W || exit 2
 git checkout -q -- . ; rm -f tests/seeded_demo_*.rs
 LOG=$O/confirm_m$K.log; : > $LOG
